@@ -237,6 +237,73 @@ def inline_helpers(ctree, helpers, sigs, depth=0):
     return _map_tree(ctree, fs)
 
 
+def fold_struct_literals(ctree, lo):
+    """a local aggregate initialised once from a brace list of literals (`const transition t = {1.770, 3.51e-3, ...};`) and never
+    assigned again: every `t.field` is replaced by the literal at the field's position (the aggregate's declared field order), and
+    the initialisation is dropped.  Makes a parameter block of constants handed to an expanded helper transparent."""
+    inits, dirty = {}, set()
+    for s in _walk_stmts(ctree):
+        if s[0] == 'assign' and s[1][0] == 'var':
+            n = s[1][1]
+            if s[2][0] == 'op' and s[2][1] == 'list' and all(x[0] == 'num' for x in s[2][2:]) and n not in inits:
+                inits[n] = s[2][2:]
+            else:
+                dirty.add(n)
+        elif s[0] == 'assign' and s[1][0] == 'fld' and s[1][1][0] == 'var':
+            dirty.add(s[1][1][1])
+        elif s[0] == 'call':
+            for a in s[2]:
+                if a[0] == 'var':
+                    dirty.add(a[1])
+    table = {}
+    for n, vals in inits.items():
+        if n in dirty:
+            continue
+        ty = (lo.locals.get(n) or '').replace('const ', '').replace('struct ', '').strip()
+        fields = cpp2ir.RECORD_FIELDS.get(ty) or cpp2ir.RECORD_FIELDS.get(ty.split('::')[-1])
+        if fields and len(fields) == len(vals):
+            table[n] = dict(zip(fields, vals))
+    if not table:
+        return ctree
+
+    def fe(e):
+        def f(x):
+            if x[0] == 'fld' and x[1][0] == 'var' and x[1][1] in table and x[2] in table[x[1][1]]:
+                return table[x[1][1]][x[2]]
+            return x
+        return ir.map_expr(f, e)
+
+    def fs(s):
+        if s[0] == 'assign' and s[1][0] == 'var' and s[1][1] in table and s[2][0] == 'op' and s[2][1] == 'list':
+            return []
+        if s[0] == 'assign':
+            return [('assign', fe(s[1]), fe(s[2]), s[3])]
+        if s[0] in ('eval', 'return'):
+            return [(s[0], fe(s[1]) if s[1] is not None else None) + tuple(s[2:])]
+        if s[0] == 'call':
+            return [('call', s[1], tuple(fe(a) for a in s[2]), s[3])]
+        return [s]
+    out = _map_tree(ctree, fs)
+    # conditions of if / loop statements
+    def fc(stmts):
+        res = []
+        for s in stmts:
+            if s[0] == 'if':
+                res.append(('if', fe(s[1]), fc(s[2]), fc(s[3]), s[4]))
+            elif s[0] == 'loop':
+                res.append(('loop', fc(s[1]), fe(s[2]), fc(s[3]), fc(s[4]), s[5], s[6]))
+            elif s[0] == 'do':
+                res.append(('do', s[1], fe(s[2]), fe(s[3]), fe(s[4]), fc(s[5]), s[6]))
+            elif s[0] == 'switch':
+                res.append(('switch', fe(s[1]), fc(s[2]), s[3]))
+            elif s[0] == 'try':
+                res.append(('try', fc(s[1]), [fc(h) for h in s[2]], s[3]))
+            else:
+                res.append(s)
+        return res
+    return fc(out)
+
+
 def _walk_stmts(stmts):
     for s in stmts:
         yield s
@@ -419,6 +486,7 @@ def compare_unit(u, fn, sigs=None, kernel=None, opts=None):
         decl_zero += klo.decl_zero
     if opts.get('helpers'):
         ctree = inline_helpers(ctree, opts['helpers'], sigs)
+    ctree = fold_struct_literals(ctree, lo)
     sc = tv.Side('c', fn['name'], [p['name'] for p in params])
     sc.keep_underscore = {p['name'] for p in params if p['name'].rstrip('_') in lo.locals
                           or (kernel is not None and p['name'].rstrip('_') in klo.locals)}
